@@ -140,9 +140,47 @@ type bsMachine struct {
 func newBSMachine(enter func(*ssa.Function) bool, bind func(v ssa.Value) ([]int64, bool)) *bsMachine {
 	m := &bsMachine{bind: bind}
 	m.vl = &Valuation{Typed: true, Enter: enter}
+	cmpStrings := func(a, b []int64) int64 {
+		for i := 0; i < len(a) && i < len(b); i++ {
+			if a[i] != b[i] {
+				if a[i] < b[i] {
+					return -1
+				}
+				return 1
+			}
+		}
+		switch {
+		case len(a) < len(b):
+			return -1
+		case len(a) > len(b):
+			return 1
+		}
+		return 0
+	}
+	libArgs := func(call *ssa.Call) (a, b []int64, ok bool) {
+		if len(call.Call.Args) != 2 {
+			return nil, nil, false
+		}
+		a, ok1 := m.bind(m.vl.Root(call.Call.Args[0]))
+		b, ok2 := m.bind(m.vl.Root(call.Call.Args[1]))
+		return a, b, ok1 && ok2
+	}
+	m.vl.Bool = func(v ssa.Value) (bool, bool) {
+		if call, ok := v.(*ssa.Call); ok && call.Call.StaticCallee() != nil && call.Call.StaticCallee().String() == "bytes.Equal" {
+			if a, b, ok := libArgs(call); ok {
+				return cmpStrings(a, b) == 0, true
+			}
+		}
+		return false, false
+	}
 	m.vl.Int = func(v ssa.Value) (int64, bool) {
 		switch y := v.(type) {
 		case *ssa.Call:
+			if f := y.Call.StaticCallee(); f != nil && f.String() == "bytes.Compare" {
+				if a, b, ok := libArgs(y); ok {
+					return cmpStrings(a, b), true
+				}
+			}
 			if bi, ok := y.Call.Value.(*ssa.Builtin); ok && bi.Name() == "len" {
 				if s, ok := m.bind(m.vl.Root(y.Call.Args[0])); ok {
 					return int64(len(s)), true
@@ -302,8 +340,10 @@ func checkOpcodeValidate(c *Ctx, vf *ssa.Function) {
 		if sc.lm > 0 {
 			mask[sc.lm-1] = sc.last
 		}
-		m := newBSMachine(nil, func(v ssa.Value) ([]int64, bool) {
-			if p, name, ok := fieldOfParam(v); ok && p == recv {
+		var m *bsMachine
+		m = newBSMachine(SamePackage(vf), func(v ssa.Value) ([]int64, bool) {
+			// a field of the pattern, also when it was handed to a helper
+			if p, name, ok := fieldOfParam(v); ok && (p == recv || m.vl.Root(p) == ssa.Value(recv) || IsParam(m.vl.Root(p), recv)) {
 				switch name {
 				case "Bytes":
 					return bytes, true
@@ -392,6 +432,45 @@ func checkAmbiguitySite(c *Ctx, fn *ssa.Function, cs CallSite, n int, enter func
 			why = "the decision never reads the mask of this pattern (only its raw bytes): patterns whose masks overlap partially are not told apart from conflicting ones"
 		}
 		c.Oblige("C19.dep", key, pos, why == "", why)
+	}
+	// C19.lookup: between patterns of different masks a conflict cannot be found
+	// by looking one pattern's bytes up among the others (the lookup compares
+	// under the other group's mask only); it takes a predicate of both patterns
+	if len(fn.Params) == 1 {
+		for _, cond := range conds {
+			viaLookup := DependsOnViaCtl(nil, cond, nil, func(v ssa.Value) bool {
+				call, ok := v.(*ssa.Call)
+				if !ok || call.Call.StaticCallee() == nil || PkgPathOf(call.Call.StaticCallee()) != PkgPathOf(fn) {
+					return false
+				}
+				g := Origin(call.Call.StaticCallee())
+				if g == lt || g == eq || g.Blocks == nil {
+					return false
+				}
+				// a function that searches (sort.Search or a loop over patterns) for a byte string
+				takesBytes := false
+				for _, p := range g.Params {
+					if isByteSliceT(p.Type()) {
+						takesBytes = true
+					}
+				}
+				searches := false
+				for _, cs := range Calls(g) {
+					if f := Callee(cs.Common()); f != nil && f.String() == "sort.Search" {
+						searches = true
+					}
+				}
+				for _, b := range g.Blocks {
+					if inAnyLoop(b) {
+						searches = true
+					}
+				}
+				return takesBytes && searches && g.Signature.Results().Len() == 2
+			}, nil)
+			if viaLookup {
+				c.Fail("C19.dep", fmt.Sprintf("%s/ambiguity#%d/by-lookup", ShortName(fn), n), pos, "the conflict between patterns of different masks is decided by looking one pattern up among the others: the lookup compares under one mask only, bits that only the probing pattern's mask selects are treated as fixed (or ignored)")
+			}
+		}
 	}
 	// C19.pairs, for sites outside the single-group constructor: both patterns
 	// come from loops over the pattern lists of two groups, the groups from two
@@ -667,6 +746,59 @@ func checkMatchInstruction(c *Ctx, opkg string, enter func(*ssa.Function) bool, 
 			}
 		}
 		c.Oblige("C19.match", key+"/search-predicate", c.Prog.Pos(cs.Pos()), why == "", why)
+	}
+	if nSearch == 0 {
+		// a hand-written binary search: the comparison that steers it, evaluated
+		// under the three outcomes of the order, is "input <= candidate" (upper
+		// half discarded) or "input > candidate" (lower half discarded)
+		evalIf := func(b *ssa.BasicBlock, rel int) (bool, bool) {
+			iff, ok := b.Instrs[len(b.Instrs)-1].(*ssa.If)
+			if !ok {
+				return false, false
+			}
+			vl := &Valuation{Bool: orderAtoms(lt, eq, cls, rel)}
+			return vl.EvalBool(iff.Cond, nil)
+		}
+		isOrderIf := func(b *ssa.BasicBlock) bool {
+			for _, rel := range []int{-1, 0, 1} {
+				if _, ok := evalIf(b, rel); !ok {
+					return false
+				}
+			}
+			return true
+		}
+		for _, b := range mi.Blocks {
+			if !inAnyLoop(b) || !isOrderIf(b) {
+				continue
+			}
+			// the head of a (short-circuit) decision: not reached from another part of one
+			head := true
+			for _, p := range b.Preds {
+				if isOrderIf(p) {
+					head = false
+				}
+			}
+			if !head {
+				continue
+			}
+			// where the decision leads for input <, ==, > candidate
+			var dest [3]*ssa.BasicBlock
+			for i, rel := range []int{-1, 0, 1} {
+				cur := b
+				for steps := 0; steps < 8 && isOrderIf(cur); steps++ {
+					v, _ := evalIf(cur, rel)
+					if v {
+						cur = cur.Succs[0]
+					} else {
+						cur = cur.Succs[1]
+					}
+				}
+				dest[i] = cur
+			}
+			nSearch++
+			okTT := dest[0] == dest[1] && dest[1] != dest[2]
+			c.Oblige("C19.match", key+"/search-step", c.Prog.FuncPos(mi), okTT, "the comparison steering the hand-written search does not separate input <= candidate from input > candidate: a lower-bound search needs exactly that")
+		}
 	}
 	c.RequireCount("C19.match binary search in matchInstruction", nSearch, 1)
 	// Match tries every group
